@@ -22,6 +22,7 @@ const prelude = `(set-option :produce-models true)
 (declare-sort Box 0)
 (declare-const BNone Box)
 (declare-datatypes ((Iface 0)) (((mkIface (i_typ Int) (i_val Box)))))
+(declare-fun implements (Int Int) Bool)
 (define-fun NilIface () Iface (mkIface 0 BNone))
 (declare-datatypes ((Fn 0)) (((mkFn (fn_id Int) (fn_env Loc)))))
 (define-fun NilFn () Fn (mkFn 0 NullLoc))
